@@ -6,3 +6,6 @@ func verifMapSet(offset uint32, bucket uint32, kth uint32) {}
 func verifMapClear() (count, multi, akash, akashMulti uint32) { return 0, 0, 0, 0 }
 
 const mapHookAvailable = false
+
+func verifTimeSet(shift int64) {}
+func verifTimeNows() uint32    { return 0 }
